@@ -6,7 +6,8 @@ import numpy as np
 import molli as ml
 
 search = sys.argv[1] == "--search"
-doc = {} if search else json.load(open(sys.argv[1]))
+BOUNDED = sys.argv[1] == "--bounded"
+doc = {} if (search or BOUNDED) else json.load(open(sys.argv[1]))
 w = doc.get("witness") or {}
 
 
@@ -33,7 +34,7 @@ def is_num(t):
 def damaged(lines, kind, k):
     if isinstance(kind, tuple):          # ("token", token index, replacement)
         toks = lines[k].split()
-        if kind[1] >= len(toks) or (kind[2] == "7" and is_num(toks[kind[1]])) or toks[kind[1]] == kind[2]:
+        if kind[1] >= len(toks) or (is_num(kind[2]) and is_num(toks[kind[1]])) or toks[kind[1]] == kind[2]:
             return lines
         toks[kind[1]] = kind[2]
         return lines[:k] + [" ".join(toks) + "\n"] + lines[k + 1:]
@@ -92,6 +93,54 @@ def _to(*a):
 
 
 signal.signal(signal.SIGALRM, _to)
+if BOUNDED:
+    # bounded stand-in (real readers, CPython, wall-clock limit per call): line-level damage at EVERY line of a bundled 7-conformer file and
+    # token corruption of its first records, including very long tokens (the readers terminate on every input)
+    e = ens()
+    vio, n = [], 0
+    for fmt in ("mol2", "xyz"):
+        text = getattr(e, f"dumps_{fmt}")()
+        ref = summarize(getattr(ml.Molecule, f"loads_all_{fmt}")(text))
+        nl = len(text.splitlines())
+        per = nl // e.n_conformers
+        fam = [(kd, k) for kd in ("truncate", "delete", "duplicate") for k in range(nl)]
+        fam += [(f"cut{j}", k) for k in range(0, 2 * per) for j in range(1, 9)]
+        long_tokens = ("9" * 40 + "x", "1" * 60, "-" + "0" * 50 + ".5e", "A" * 5000, "7" * 25 + " " * 3 + "z")
+        fam += [(("token", j, new), k) for k in range(0, per + 3) for j in range(0, 9) for new in long_tokens + ("Xq", "-1.5e", "??")]
+        for kd, k in fam:
+            n += 1
+            r = check(fmt, kd, k, e, text, ref)
+            if r:
+                sig = "termination" if "terminate" in r else ("parser-blocks" if "handed out block" in r else ("same-content" if "differs" in r else "declared-counts"))
+                if f"{fmt}/{sig}" not in [v["signature"] for v in vio]:
+                    vio.append({"signature": f"{fmt}/{sig}", "what": r})
+    print(json.dumps({"explored": {"damaged texts parsed": n}, "violations": vio}))
+    sys.exit(0)
+if w.get("op") == "undecodable-byte":
+    # one byte of a coordinate token destroyed (0xff is not valid UTF-8): the file must be rejected, not read with other numbers
+    import tempfile, os
+    e = ens()
+    for fmt in ("xyz", "mol2"):
+        raw = getattr(e, f"dumps_{fmt}")().encode()
+        ref = summarize(getattr(ml.Molecule, f"loads_all_{fmt}")(raw.decode()))
+        pos = [i for i, c in enumerate(raw) if c in b"-0123456789"]
+        for at in pos[len(pos) // 3::max(1, len(pos) // 40)]:
+            p_ = os.path.join(tempfile.mkdtemp(), "d." + fmt)
+            open(p_, "wb").write(raw[:at] + b"\xff" + raw[at + 1:])
+            for cls, entry in ((ml.Molecule, "load_all"), (ml.Molecule, "load"), (ml.ConformerEnsemble, "load")):
+                try:
+                    r = getattr(cls, f"{entry}_{fmt}")(p_)
+                    r = list(r) if entry == "load_all" else [r]
+                except BaseException:
+                    continue
+                # accepted: then what was read must be what the undamaged file holds (a reader that stops before the damaged
+                # byte has not seen it)
+                got = summarize(r if cls is ml.Molecule else [c_ for c_ in r[0]])
+                if got != ref[:len(got)]:
+                    print(f"REPRODUCED: {cls.__name__}.{entry}_{fmt} accepted a file with an undecodable byte at offset {at} and returned other content than the undamaged file holds")
+                    sys.exit(0)
+    print("not reproduced")
+    sys.exit(1)
 if w.get("op") == "bond-records":
     # an undamaged file: every BOND record is a bond of the molecule, whatever its type token
     for bt in ml.BondType:
